@@ -484,7 +484,7 @@ func (c *Ctx) freshVersion(rule string, fn *ssa.Function, at ssa.Instruction, v 
 				return
 			}
 			if fa, ok := st.Addr.(*ssa.FieldAddr); ok && (fa.X == cellIn || ir.Resolve(fa.X) == cellIn) && ir.FieldOf(fa) == verField {
-				if call, ok := ir.Resolve(st.Val).(*ssa.Call); ok && newID != nil && ir.StaticCallee(call) == newID {
+				if versionGeneratorV(st.Val, verField, newID, 0) != nil { // the generator's result, also handed on from another local record
 					fresh = append(fresh, in)
 				} else {
 					others = append(others, in)
@@ -523,7 +523,7 @@ func (c *Ctx) freshVersion(rule string, fn *ssa.Function, at ssa.Instruction, v 
 		if clean {
 			ok = true
 			// the generator runs once per write: no way from this write round to the same write without a new call
-			if call, isCall := ir.Resolve(s.(*ssa.Store).Val).(*ssa.Call); isCall && call.Parent() == at.Parent() {
+			if call := versionGeneratorV(s.(*ssa.Store).Val, verField, newID, 0); call != nil && call.Parent() == at.Parent() {
 				if w, _ := (ir.Query{Fn: at.Parent(), From: at, Block: func(x ssa.Instruction) bool { return x == ssa.Instruction(call) }, Target: func(x ssa.Instruction) bool { return x == at }}).Find(); w != nil {
 					ok = false
 					detail = "one generated version is reused for several writes (the generator call is outside the loop): records written in one call share a version"
@@ -1355,22 +1355,47 @@ func (c *Ctx) everyBatchRecordWritten(r *inmemRoles, rule string) {
 	}
 	batch := fn.Params[2]
 	n := 0
+	// a copy of the batch prepared element by element (before the critical section) stands for the batch: an iteration
+	// over the batch may hand its record on to the same index of the copy, and every iteration over the copy stores
+	derived := derivedBatchesV(fn, batch, r.recordT)
+	isMarker := func(ia *ssa.IndexAddr) bool {
+		base := ir.Resolve(ia.X)
+		return base == ssa.Value(batch) || (derived[base] && elementReadV(ia))
+	}
+	readDerived := map[ssa.Value]bool{}
 	// the element load of the batch marks an iteration
 	ir.Instrs(fn, func(in ssa.Instruction) {
 		ia, ok := in.(*ssa.IndexAddr)
-		if !ok || ir.Resolve(ia.X) != ssa.Value(batch) {
+		if !ok || !isMarker(ia) {
 			return
 		}
 		n++
-		isStore := func(x ssa.Instruction) bool { return r.recsUpdate(x) != nil }
+		onBatch := ir.Resolve(ia.X) == ssa.Value(batch)
+		if !onBatch {
+			readDerived[ir.Resolve(ia.X)] = true
+		}
+		isStore := func(x ssa.Instruction) bool {
+			return r.recsUpdate(x) != nil || (onBatch && transferStoreV(x, ia, derived))
+		}
 		c.NoPath(rule, "every record of the batch is stored", in, ir.Query{Fn: fn, From: in, Block: isStore,
 			Target: func(x ssa.Instruction) bool {
 				if ir.IsExit(x) {
 					return true
 				}
 				y, isIA := x.(*ssa.IndexAddr)
-				return isIA && x != in && ir.Resolve(y.X) == ssa.Value(batch) || x == in
+				return isIA && x != in && isMarker(y) || x == in
 			}}, "a record of the batch can be skipped (no store, no new version, no wake-up): a write that leaves the version unchanged lets a stale CasByVersion succeed")
+	})
+	// a prepared copy that receives the records must itself be walked and stored
+	ir.Instrs(fn, func(in ssa.Instruction) {
+		st, ok := in.(*ssa.Store)
+		if !ok {
+			return
+		}
+		if dst, isIA := st.Addr.(*ssa.IndexAddr); isIA && derived[ir.Resolve(dst.X)] && !readDerived[ir.Resolve(dst.X)] {
+			readDerived[ir.Resolve(dst.X)] = true
+			c.Decide(rule, fn, "the prepared copy of the batch is stored", in, false, "the records of the batch are copied into a local slice that is never walked: none of them is stored")
+		}
 	})
 	if n == 0 {
 		c.Decide(rule, fn, "PutMany walks the batch", nil, false, "PutMany does not iterate over the records it was given")
@@ -1406,6 +1431,19 @@ func (c *Ctx) inmemNoSharing(r *inmemRoles, rule string) {
 				if a, isAl := u.X.(*ssa.Alloc); isAl && len(ir.StoresTo(a)) == 0 {
 					continue
 				}
+			}
+			// an element of a local slice of copies (prepared before the critical section): what every element store put there
+			if sts, isElem := localSliceElemStoresV(o); isElem && depth < 2 {
+				all := len(sts) > 0
+				for _, st := range sts {
+					if !isCopied(st.Val, depth+1) {
+						all = false
+					}
+				}
+				if all {
+					continue
+				}
+				return false
 			}
 			call, ok := o.(*ssa.Call)
 			if !ok {
@@ -1450,7 +1488,7 @@ func (c *Ctx) inmemNoSharing(r *inmemRoles, rule string) {
 						return true
 					}
 				case *ssa.Call:
-					if cal := ir.StaticCallee(t); cal != nil && r.liveHelpers[cal] {
+					if cal := ir.StaticCallee(t); cal != nil && (r.liveHelpers[cal] || r.liveWrapperV(cal, 0)) {
 						return true
 					}
 				case *ssa.Next:
@@ -1510,6 +1548,9 @@ func (c *Ctx) inmemNoSharing(r *inmemRoles, rule string) {
 					if fromTable(st.Val) && !isCopied(st.Val, 0) {
 						bad = true
 					}
+				}
+				if bad && resultSliceRecopiedV(fn, x, ia.X, func(v ssa.Value, d int) bool { return isCopied(v, d) }) {
+					bad = false // every entry is overwritten with its copy by a complete pass before the function returns
 				}
 				c.Decide(rule, fn, "records handed out in a result slice are copies", x, !bad,
 					"the *Record put into the result points to the struct read from the table: its Value buffer and ExpiresAt are the stored ones, a caller that modifies the result modifies the stored record")
